@@ -75,6 +75,28 @@ pub fn run(out: &mut Out, seed: u64, tier: &str) {
             }
         }
     }
+    // molecules defined by an explicit bond table (the scripting interface), constructed repeatedly: decisions that look at a
+    // neighbour's neighbours or types (which constant a centre gets, which oxygen is found first) must not follow the hash order
+    let mut n_explicit = 0usize;
+    for _ in 0..(if tier == "thorough" { 150 } else { 30 }) {
+        let (m, bonds) = explicit_family(&mut rng);
+        if m.min_distance() < 0.5 { continue; }
+        let first = match build_all_explicit(&m, &bonds) { Some(b) => b, None => continue };
+        let (types0, terms0) = match &first.uff { Some((t, ts)) => (t.clone(), sorted_terms(ts)), None => continue };
+        n_explicit += 1;
+        let replay = format!("{}bonds (set through set_bond_orders): {}", m.xyz_text(), crate::canon::bonds_text(&bonds));
+        for r in 0..reps {
+            let b = match build_all_explicit(&m, &bonds) { Some(b) => b, None => { out.oracle_fail("construction aborted on a repeat", &replay); break; } };
+            match &b.uff {
+                None => { out.oracle_fail("UFF construction aborted on a repeat", &replay); break; }
+                Some((t, ts)) => {
+                    if *t != types0 { out.oracle_fail(&format!("assigned atom types differ between constructions (repeat {}): {} vs {}", r, types0, t), &replay); break; }
+                    if sorted_terms(ts) != terms0 { out.oracle_fail(&format!("UFF term lists differ between constructions of the same explicitly bonded molecule (repeat {})", r), &replay); break; }
+                }
+            }
+        }
+    }
+    out.stat("explicitly_bonded_molecules_repeated", n_explicit);
     // "the same optimised structure": each molecule — and a compressed copy of it, which rarely converges within the budget, so
     // that differences in the last bits of the gradient are amplified — is built and optimised several times in this process
     // (every construction draws fresh hash keys); the results must agree to the written precision, 1e-6 A
